@@ -63,6 +63,8 @@ func genC17(t *rapid.T) c17Case {
 			if c.Shape.XMLNS == 4 {
 				c.Shape.Envelope = false
 			}
+		case "json":
+			c.Shape.JSONKeyed = rapid.Bool().Draw(t, "heapJSONKeyed")
 		case "fixedlength2":
 			if rapid.Bool().Draw(t, "heapMultiRow") {
 				c.Shape.Variant, c.Shape.NSub, c.Shape.SubW = 1, 0, nil
@@ -74,6 +76,11 @@ func genC17(t *rapid.T) c17Case {
 		c.Shape.IntCol = -1
 	}
 	c.Shape.Filter = c.Shape.IntCol != 0 && rapid.IntRange(0, 2).Draw(t, "withFilter") > 0
+	if c.Shape.Format == "xml" && rapid.IntRange(0, 3).Draw(t, "posFilter") == 0 {
+		// a positional predicate instead of the value filter: every candidate passes on the unchanged code (earlier
+		// candidates are gone when the next one is judged)
+		c.Shape.PosFilter, c.Shape.Filter = true, false
+	}
 	c.Shape.QuoteInFilter = c.Shape.Filter && c.Shape.Format != "edi" && rapid.Bool().Draw(t, "quoteInFilter17")
 	c.Pool = gen.DrawRecs(t, c.Shape, "p", 1, 4, gen.ValueOpts{MaxLen: 4})
 	// make sure the filter (if any) rejects candidates between deliveries
